@@ -8,13 +8,15 @@ THEOREMS = ["C01_route_is_first_match", "C01_rule_semantics", "C01_first_match_l
             "C01_no_match_rejected", "C01_forward_iff_first", "C01_chosen_policy", "C01_model_meets_spec",
             "C01_star_wins", "C01_positives_silence_negatives", "C01_url_ignores_inverted",
             "C01_inverted_is_complement", "C01_empty_fields", "C01_subresource_wildcard",
-            "C01_inverted_subresource_wildcard", "C01_glob_meaning", "C01_user_glob", "C01_url_glob"]
+            "C01_inverted_subresource_wildcard", "C01_glob_meaning", "C01_user_glob", "C01_url_glob",
+            "C01_overlapping_sync_old_or_new", "C01_overlapping_sync_snapshot"]
 EVAL = "C01_Check.eval"
 COQ_SHARD = 200
-CLAUSES = ["agree", "first_match", "reject_iff_none", "chosen_policy", "age_independent"]
+CLAUSES = ["agree", "first_match", "reject_iff_none", "chosen_policy", "age_independent", "atomic_list"]
 RULE = ("distinct (policy list, request) pairs in which some rule has at least two non-default fields (non-empty and "
         "not ['*']) and which have at least two rules in total or whose single rule matched (so the outcome is not "
-        "decided by one rule's verb alone)")
+        "decided by one rule's verb alone); overlap cases: distinct (request, old list, new list, k) in which the Sync "
+        "did fire inside the match and the answers during and after the match differ (old and new decision differ)")
 TRUSTED_BASE = [
     "Coq 8.16.1 kernel + vm_compute (case files); no native_compute, no extraction",
     "hand-written model C01_Model.v tied to /repo by the differential run of this check (Go harness harness/c01: "
@@ -143,6 +145,21 @@ def corpus():
     cs.append(mk_case(mk_attrs(group=b""), [mk_policy([mk_rule(verbs=[b"*"], groups=[b"-"], resources=[b"*"])])]))
     cs.append(mk_case(mk_attrs(group=b"apps"), [mk_policy([mk_rule(verbs=[b"*"], groups=[b"-"], resources=[b"*"])])]))
     cs.append(mk_case(mk_attrs(group=b""), [mk_policy([mk_rule(verbs=[b"*"], groups=[b""], resources=[b"*"])])]))
+    # a match overlapping a Sync (seeded/C01-f): old [get->reads, *->rest], new [delete->deletes], request get pods
+    rr = lambda v: mk_rule(verbs=[v], groups=[b"*"], resources=[b"*"])
+    o_l = [mk_policy([rr(b"get")], b"reads"), mk_policy([rr(b"*")], b"rest")]
+    n_l = [mk_policy([rr(b"delete")], b"deletes")]
+    for k in (0, 1, 2, 3, 9, 40):
+        cs.append(mk_overlap(mk_attrs(name=b"p0"), o_l, n_l, k))
+        cs.append(mk_overlap(mk_attrs(verb=b"list"), o_l, n_l, k))
+    # same length edited in place; same names reordered; growing; to empty
+    n_same = [mk_policy([rr(b"delete")], b"deletes"), mk_policy([rr(b"get")], b"late-reads", [SERVERS[1]])]
+    for k in (1, 2, 8):
+        cs.append(mk_overlap(mk_attrs(), o_l, n_same, k))
+        cs.append(mk_overlap(mk_attrs(verb=b"list"), o_l, [o_l[1], o_l[0]], k))
+        cs.append(mk_overlap(mk_attrs(verb=b"list"), o_l, n_l + o_l, k))
+        cs.append(mk_overlap(mk_attrs(), o_l, [], k))
+        cs.append(mk_overlap(mk_attrs(), [], o_l, k))
     return cs
 
 
@@ -262,10 +279,65 @@ def gen_malformed(rng):
     return c
 
 
+# ----------------------------------------------------------------------------- match overlapping a Sync
+def mk_overlap(attrs, old, new, k, servers=None, tag="corpus", shape="hand"):
+    return {"kind": "overlap", "attrs": attrs, "policies": old, "new": new, "k": k,
+            "servers": servers or SERVERS[:2], "tag": tag, "shape": shape}
+
+
+def gen_policy(rng, a, flow):
+    rules = [gen_rule(rng, a) for _ in range(rng.randint(1, 2))]
+    if rng.below(3) == 0:                               # a rule that certainly matches a
+        rules[rng.below(len(rules))] = mk_rule(verbs=[bytes(a["verb"]), b"-zz"] if rng.below(2) else [b"*"], groups=[b"*"],
+                                               resources=[b"*"], urls=[b"*"])
+    subset = [s.encode() for s in rng.sample(SERVERS, 1)] if rng.below(4) == 0 else []
+    return mk_policy(rules, flow, subset)
+
+
+def gen_overlap(rng):
+    a = gen_attrs(rng)
+    servers = rng.sample(SERVERS, rng.randint(1, 3))
+    naming = rng.below(100)
+    n_old = rng.randint(1, 4)
+    oname = (lambda i: b"o%d" % i) if naming < 75 else (lambda i: rng.choice(FLOWS))
+    nname = (lambda i: b"n%d" % i) if naming < 75 else (lambda i: rng.choice(FLOWS))
+    old = [gen_policy(rng, a, oname(i)) for i in range(n_old)]
+    sh = rng.below(100)
+    if sh < 40:                                         # same length, edited in place
+        shape = "same-length"
+        new = []
+        for i, p in enumerate(old):
+            e = rng.below(4)
+            if e == 0:
+                new.append(dict(p, flow=B(nname(i))))                          # same rules under another schema
+            elif e == 1:
+                new.append(mk_policy(p["rules"][::-1][:1] + [gen_rule(rng, a)], bytes(p["flow"]), []))   # same name, other rules
+            else:
+                new.append(gen_policy(rng, a, nname(i)))
+    elif sh < 60:                                       # the same policies (names and rules) reordered
+        shape = "reordered"
+        new = rng.shuffle(old)
+        if new == old and len(old) > 1:
+            new = old[1:] + old[:1]
+    elif sh < 82:                                       # shrinking
+        shape = "shrinking"
+        keep = rng.randint(0, n_old - 1)
+        new = [gen_policy(rng, a, nname(i)) if rng.below(2) else old[(i + 1) % n_old] for i in range(keep)]
+    else:                                               # growing
+        shape = "growing"
+        new = [gen_policy(rng, a, nname(i)) for i in range(n_old + rng.randint(1, 2))]
+        if rng.below(2):
+            new[rng.below(len(new))] = old[0]
+    kk = rng.below(100)
+    k = 0 if kk < 8 else 1 if kk < 32 else rng.randint(2, 6) if kk < 75 else rng.randint(7, 40)
+    return mk_overlap(a, old, new, k, servers, "overlap", shape)
+
+
 def generate(rng, tier, scale=1):
-    ns, nm = (1200, 240) if tier == "quick" else (17000, 3000)
-    ns, nm = ns * scale, nm * scale
-    return [gen_structured(rng) for _ in range(ns)] + [gen_malformed(rng) for _ in range(nm)]
+    ns, nm, no = (1200, 240, 300) if tier == "quick" else (17000, 3000, 4000)
+    ns, nm, no = ns * scale, nm * scale, no * scale
+    return ([gen_structured(rng) for _ in range(ns)] + [gen_malformed(rng) for _ in range(nm)]
+            + [gen_overlap(rng) for _ in range(no)])
 
 
 # ----------------------------------------------------------------------------- Coq printing
@@ -320,6 +392,13 @@ def coq_ma(m):
 
 
 def coq_case(case, obs):
+    if case.get("kind") == "overlap":
+        if not isinstance(obs, dict) or "panic" in obs or "during" not in obs:
+            return "CBroken"
+        return "(COverlap %s %s %s %s %d%%nat (mkOv %s %s %s))" % (
+            coq_attrs(case["attrs"]), clist([coq_policy(p) for p in case["policies"]]),
+            clist([coq_policy(p) for p in case["new"]]), clist([cs(s) for s in case["servers"]]), max(0, case["k"]),
+            cbool(obs["fired"]), coq_ma(obs["during"]), coq_ma(obs["after"]))
     if not isinstance(obs, dict) or "panic" in obs or "fresh" not in obs:
         return "CBroken"
     idx = obs["idx"]
@@ -354,6 +433,10 @@ def _freeze(x):
 
 
 def nontrivial_key(case, obs):
+    if case.get("kind") == "overlap":
+        if isinstance(obs, dict) and obs.get("fired") and case["k"] >= 1 and obs.get("during") != obs.get("after"):
+            return ("ov", _freeze(case["attrs"]), _freeze(case["policies"]), _freeze(case["new"]), case["k"])
+        return None
     if not isinstance(obs, dict) or "idx" not in obs:
         return None
     rules = _rules(case)
@@ -367,7 +450,14 @@ def nontrivial_key(case, obs):
 def stats(case, obs):
     labs = ["stream:%s" % case.get("tag", "?"), "policies:%d" % len(case["policies"]),
             "rules:%d" % min(len(_rules(case)), 9), "request:%s" % ("resource" if case["attrs"]["isres"] else "non-resource")]
-    if isinstance(obs, dict) and "idx" in obs:
+    if case.get("kind") == "overlap" and isinstance(obs, dict) and "during" in obs:
+        k = case["k"]
+        labs += ["overlap:shape=%s" % case.get("shape"), "overlap:new-policies:%d" % len(case["new"]),
+                 "overlap:k=%s" % (k if k <= 1 else "2-6" if k <= 6 else "7+"),
+                 "overlap:%s" % ("sync-fired" if obs["fired"] else "sync-not-reached"),
+                 "overlap:during-vs-after:%s" % ("same" if obs["during"] == obs["after"] else "differ"),
+                 "overlap:during:%s" % ("reject" if obs["during"]["nomatch"] else "forward")]
+    elif isinstance(obs, dict) and "idx" in obs:
         labs.append("outcome:%s" % ("reject" if obs["idx"] < 0 else "policy%d" % obs["idx"]))
     else:
         labs.append("outcome:panic")
@@ -386,6 +476,17 @@ def stats(case, obs):
 
 
 def _variants(case):
+    if case.get("kind") == "overlap" and not case.get("_inner"):
+        if case["k"] > 1:
+            yield dict(case, k=1)
+            yield dict(case, k=case["k"] - 1)
+        for v in _variants(dict(case, _inner=True)):
+            v.pop("_inner", None)
+            yield v
+        flipped = dict(case, policies=case["new"], new=case["policies"], _inner=True)
+        for v in _variants(flipped):
+            yield dict(case, new=v["policies"])
+        return
     ps = case["policies"]
     for i in range(len(ps)):
         yield dict(case, policies=ps[:i] + ps[i + 1:])
